@@ -188,15 +188,19 @@ Proof.
   intros Hs HX. cbn [X csx] in HX. destruct HX as (Hl & v & Hff).
   pose proof (V_thr x HV t) as T. unfold tfact in T. rewrite Hs in T.
   assert (Hin0 : forall kk u, In u (cq x (lcell kk)) -> u <> t).
-  { intros kk u H ->. destruct (V_in x HV kk t H) as (_ & a & (p0 & k0 & [E|E]) & _); rewrite Hs in E; cbn in E; rewrite bot_two in E; discriminate. }
+  { intros kk u H ->. destruct (V_in x HV kk t H) as (_ & a & (p0 & k0 & [E|E]) & _); rewrite Hs in E; cbn [stk_of] in E; rewrite bot_two in E; discriminate. }
   destruct Hff as [-> | ->]; cbn in T; destruct T as [(E1 & Ev & Ec)|(E1 & Ev & Ec)];
-    try (exfalso; revert E1; unfold c_high, c_low; lia); subst v c; go Hs.
+    try (exfalso; revert E1; unfold c_high, c_low; lia); subst v c; go Hs;
+    match goal with |- Cov ?X => set (x' := X) end.
   - (* send *)
     apply cov_cs_gen; try reflexivity; [stk_other| |tf; exact I| |].
     + intros kk Hne. cbn in Hne. pose proof (V_cov x HV kk Hne) as Hc.
-      pose proof (cover_upd1 x _ kk t Ht eq_refl ltac:(intros u Hu; unfold wof; cbn; rewrite upd_other by exact Hu; reflexivity)) as U.
-      unfold wof in U. cbn in U. rewrite upd_same, Hs in U. unfold weight, acts, ppb in U. cbn in U.
-      unfold avail, occ in *. cbn. rewrite upd_same, upd_other by cells.
+      assert (Ho : forall u, u <> t -> wof x' kk u = wof x kk u)
+        by (intros u Hu; unfold wof, x'; cbn; rewrite upd_other by exact Hu; reflexivity).
+      pose proof (cover_upd1 x x' kk t Ht eq_refl Ho) as U.
+      remember (cover x' kk) as cv' eqn:Ecv. clear Ecv.
+      unfold wof, x' in U. cbn in U. rewrite upd_same, Hs in U. unfold weight, acts, ppb in U. cbn in U.
+      unfold avail, occ, x' in *. cbn. rewrite ?upd_same, ?upd_other by cells.
       destruct kk; cbn in U; destruct (isk (hk p) _); cbn in U; lia.
     + intros kk u H. cbn in H. destruct (V_in x HV kk u H) as (Hu & a & Hw & Ha).
       split; [exact Hu|]. exists a. split; [|exact Ha]. cbn. rewrite upd_other by (apply (Hin0 kk); exact H). exact Hw.
@@ -206,9 +210,12 @@ Proof.
   - (* receive *)
     apply cov_cs_gen; try reflexivity; [stk_other| |tf; exact I| |].
     + intros kk Hne. cbn in Hne. pose proof (V_cov x HV kk Hne) as Hc.
-      pose proof (cover_upd1 x _ kk t Ht eq_refl ltac:(intros u Hu; unfold wof; cbn; rewrite upd_other by exact Hu; reflexivity)) as U.
-      unfold wof in U. cbn in U. rewrite upd_same, Hs in U. unfold weight, acts, ppb in U. cbn in U.
-      unfold avail, occ in *. cbn. rewrite upd_same, upd_other by cells.
+      assert (Ho : forall u, u <> t -> wof x' kk u = wof x kk u)
+        by (intros u Hu; unfold wof, x'; cbn; rewrite upd_other by exact Hu; reflexivity).
+      pose proof (cover_upd1 x x' kk t Ht eq_refl Ho) as U.
+      remember (cover x' kk) as cv' eqn:Ecv. clear Ecv.
+      unfold wof, x' in U. cbn in U. rewrite upd_same, Hs in U. unfold weight, acts, ppb in U. cbn in U.
+      unfold avail, occ, x' in *. cbn. rewrite ?upd_same, ?upd_other by cells.
       destruct kk; cbn in U; destruct (isk (hk p) _); cbn in U; lia.
     + intros kk u H. cbn in H. destruct (V_in x HV kk u H) as (Hu & a & Hw & Ha).
       split; [exact Hu|]. exists a. split; [|exact Ha]. cbn. rewrite upd_other by (apply (Hin0 kk); exact H). exact Hw.
@@ -216,3 +223,192 @@ Proof.
       * cbn in Hw. rewrite upd_same in Hw. destruct Hw as (p0 & k0 & [E|E]); discriminate.
       * cbn in Hw. rewrite upd_other in Hw by exact N. apply (V_q x HV u a Hw Hq).
 Qed.
+
+Lemma lhd_lcell c : lhd c -> exists kk, c = lcell kk.
+Proof. intros [-> | ->]; [exists true|exists false]; reflexivity. Qed.
+Lemma lcell_inj k k' : lcell k = lcell k' -> k = k'.
+Proof. destruct k, k'; cbn; unfold c_waiters, c_rwaiters; intros; try reflexivity; lia. Qed.
+
+(* the pop: the top of the other kind's list becomes active again *)
+Lemma cov_cs_pop ff r g p k :
+  S = stk_of (PCs ff (MWk4 r g p k)) -> X x t (PCs ff (MWk4 r g p k)) -> Cov (gstep x t).
+Proof.
+  intros Hs HX. cbn [X csx] in HX. destruct HX as (c0 & rest & Hl & -> & Eq).
+  destruct (lhd_lcell c0 Hl) as (kk & ->).
+  assert (Hgin : In g (cq x (lcell kk))) by (rewrite Eq; cbn; auto).
+  destruct (V_in x HV kk g Hgin) as (Hg & a & Hwg & Hak).
+  pose proof (Q_in x (I_Q x HI) (lcell kk) g Hl Hgin) as Hgq.
+  assert (Hnt : forall a0, ~ waits S a0).
+  { intros a0 (p0 & k0 & [E|E]); rewrite Hs in E; discriminate. }
+  assert (Hgt : g <> t) by (intros ->; apply (Hnt a Hwg)).
+  assert (Hgb : exists p0 k0, bot (stk (gb x) g) = Some (MWt5 a p0 k0)).
+  { destruct Hwg as (p0 & k0 & [E|E]); [eauto|]. exfalso. apply Hgt.
+    apply (I_own1 x (I_C x HI)); [|exact Hr]. apply (bot_cs_owner x g _ HI E). reflexivity. }
+  destruct Hgb as (p0 & k0 & Hgb).
+  go Hs. rewrite Eq. cbn [List.tl]. match goal with |- Cov ?X => set (x' := X) end.
+  assert (Hcq' : forall k1, cq x' (lcell k1) = if Bool.eqb k1 kk then rest else cq x (lcell k1)).
+  { intros k1. unfold x'. cbn. unfold upd. destruct (Nat.eqb_spec (lcell k1) (lcell kk)) as [E|N].
+    - apply lcell_inj in E. subst k1. rewrite eqb_reflx. reflexivity.
+    - destruct (Bool.eqb k1 kk) eqn:Eb; [apply eqb_prop in Eb; congruence|reflexivity]. }
+  apply cov_cs_gen; try reflexivity; [stk_other| |tf; exact I| |].
+  - intros k1 Hne. rewrite Hcq' in Hne.
+    assert (Hne0 : cq x (lcell k1) <> []).
+    { destruct (Bool.eqb k1 kk) eqn:Eb; [apply eqb_prop in Eb; subst k1; rewrite Eq; discriminate|exact Hne]. }
+    pose proof (V_cov x HV k1 Hne0) as Hc.
+    assert (Ho : forall u, u <> t -> u <> g -> wof x' k1 u = wof x k1 u)
+      by (intros u Hu Hu'; unfold wof, x'; cbn; rewrite !upd_other by assumption; reflexivity).
+    pose proof (cover_upd2 x x' k1 t g Ht Hg (not_eq_sym Hgt) eq_refl Ho) as U.
+    remember (cover x' k1) as cv' eqn:Ecv. clear Ecv.
+    unfold wof, x' in U. cbn in U. rewrite !upd_same, (upd_other _ _ _ g), (upd_other _ _ _ t) in U by auto.
+    rewrite Hs, Hgq in U. unfold weight, acts, ppb in U. rewrite Hgb in U. cbn in U. rewrite Hak in U.
+    assert (Eav : avail x' k1 = avail x k1).
+    { unfold avail, occ, x'. destruct kk; cbn; rewrite ?upd_other by cells; reflexivity. }
+    rewrite Eav.
+    destruct (Nat.eqb_spec (lcell kk) (lcell k1)) as [E|N].
+    + apply lcell_inj in E. subst k1. rewrite eqb_reflx in U. cbn in U. lia.
+    + assert (Bool.eqb kk k1 = false) as Eb by (destruct kk, k1; try reflexivity; congruence).
+      rewrite Eb in U. cbn in U. lia.
+  - intros k1 u H. rewrite Hcq' in H.
+    assert (H0 : In u (cq x (lcell k1))).
+    { destruct (Bool.eqb k1 kk) eqn:Eb; [apply eqb_prop in Eb; subst k1; rewrite Eq; cbn; auto|exact H]. }
+    destruct (V_in x HV k1 u H0) as (Hu & a1 & Hw & Ha).
+    split; [exact Hu|]. exists a1. split; [|exact Ha].
+    unfold x'. cbn. rewrite upd_other; [exact Hw|]. intros ->. apply (Hnt a1 Hw).
+  - intros u a1 Hw Hq. unfold x' in Hw, Hq. cbn in Hw, Hq.
+    destruct (Nat.eq_dec u t) as [->|N].
+    { rewrite upd_same in Hw. destruct Hw as (p1 & k1 & [E|E]); discriminate. }
+    rewrite upd_other in Hw by exact N.
+    destruct (Nat.eq_dec u g) as [->|Ng]; [rewrite upd_same in Hq; discriminate|].
+    rewrite upd_other in Hq by exact Ng.
+    pose proof (V_q x HV u a1 Hw Hq) as Hin. rewrite Hcq'.
+    destruct (Bool.eqb (ak a1) kk) eqn:Eb; [|exact Hin].
+    apply eqb_prop in Eb. rewrite Eb, Eq in Hin. destruct Hin as [E|Hin]; [congruence|exact Hin].
+Qed.
+
+Lemma acts_nq S0 ch ch' : ch <> CQueued -> ch' <> CQueued -> acts S0 ch = acts S0 ch'.
+Proof.
+  intros H H'. unfold acts. destruct (bot S0) as [c|]; [|reflexivity].
+  destruct c; try reflexivity. destruct ch, ch'; congruence.
+Qed.
+
+(* the wake-up of the popped fiber, then fiber_mutex_unlock *)
+Lemma cov_cs_wake ff r g p k :
+  S = stk_of (PCs ff (MWk6 r g p k)) -> L (view_of x t) (PCs ff (MWk6 r g p k)) ->
+  X x t (PCs ff (MWk6 r g p k)) -> Cov (gstep x t).
+Proof.
+  intros Hs HL HX. cbn [X csx] in HX. destruct HX as (-> & Hg).
+  assert (Hgt : g <> t).
+  { intros ->. destruct HL as [_ Hcs]. cbn in Hcs. destruct Hcs; congruence. }
+  assert (Hnt : forall a0, ~ waits S a0).
+  { intros a0 (p0 & k0 & [E|E]); rewrite Hs in E; discriminate. }
+  unfold gstep, step. rewrite Hs. cbn -[wake]. match goal with |- Cov ?X => set (x' := X) end.
+  assert (Ec : cell (mem (gb x')) = cell m) by (unfold x'; cbn [gb mem]; rewrite wake_cell; reflexivity).
+  assert (Hwof : forall k1 u, wof x' k1 u = wof x k1 u).
+  { intros k1 u. unfold wof, x'. cbn [gb stk chand]. destruct (Nat.eq_dec u t) as [->|N].
+    - rewrite upd_same, upd_other, Hs by auto. reflexivity.
+    - rewrite upd_other by exact N. destruct (Nat.eq_dec u g) as [->|Ng]; [|rewrite upd_other by exact Ng; reflexivity].
+      rewrite upd_same, Hg. unfold weight. rewrite (acts_nq _ CWoken (CPopped t)) by discriminate. reflexivity. }
+  apply cov_cs_gen; try reflexivity; [stk_other| |tf; exact I| |].
+  - intros k1 Hne. rewrite (avail_frame x x' k1 Ec eq_refl), (cover_frame x x' k1 eq_refl); [apply (V_cov x HV k1 Hne)|].
+    intros u _. apply Hwof.
+  - intros k1 u H. destruct (V_in x HV k1 u H) as (Hu & a1 & Hw & Ha).
+    split; [exact Hu|]. exists a1. split; [|exact Ha].
+    unfold x'. cbn [gb stk]. rewrite upd_other; [exact Hw|]. intros ->. apply (Hnt a1 Hw).
+  - intros u a1 Hw Hq. unfold x' in Hw, Hq. cbn [gb stk chand cq] in *.
+    destruct (Nat.eq_dec u t) as [->|N].
+    { rewrite upd_same in Hw. destruct Hw as (p1 & k1 & [E|E]); discriminate. }
+    rewrite upd_other in Hw by exact N.
+    destruct (Nat.eq_dec u g) as [->|Ng]; [rewrite upd_same in Hq; discriminate|].
+    rewrite upd_other in Hq by exact Ng. apply (V_q x HV u a1 Hw Hq).
+Qed.
+
+(* internal_wait: the push on the own kind's list (the buffer allows nothing of that kind) *)
+Lemma cov_cs_push ff a p k :
+  S = stk_of (PCs ff (MWt3 a p k)) -> L (view_of x t) (PCs ff (MWt3 a p k)) ->
+  X x t (PCs ff (MWt3 a p k)) -> Cov (gstep x t).
+Proof.
+  intros Hs HL HX. cbn [X csx] in HX. destruct HX as (c0 & Hl & -> & Hlink).
+  pose proof (V_thr x HV t) as T. unfold tfact in T. rewrite Hs in T. cbn in T. destruct T as [Hav ->].
+  assert (Hnt : forall a0, ~ waits S a0).
+  { intros a0 (p0 & k0 & [E|E]); rewrite Hs in E; discriminate. }
+  assert (Hcht : chand x t <> CQueued).
+  { destruct HL as [_ Hcs]. cbn in Hcs. destruct Hcs; congruence. }
+  go Hs. match goal with |- Cov ?X => set (x' := X) end.
+  assert (Hcq' : forall k1, cq x' (lcell k1) = if Bool.eqb k1 (ak a) then t :: cq x (lcell k1) else cq x (lcell k1)).
+  { intros k1. unfold x'. cbn. unfold upd. destruct (Nat.eqb_spec (lcell k1) (lcell (ak a))) as [E|N].
+    - apply lcell_inj in E. rewrite E, eqb_reflx. reflexivity.
+    - destruct (Bool.eqb k1 (ak a)) eqn:Eb; [apply eqb_prop in Eb; congruence|reflexivity]. }
+  assert (Eav : forall k1, avail x' k1 = avail x k1).
+  { intros k1. unfold avail, occ, x'. destruct (ak a); cbn; rewrite ?upd_other by cells; reflexivity. }
+  assert (Hwof : forall k1 u, wof x' k1 u = wof x k1 u).
+  { intros k1 u. unfold wof, x'. cbn [gb stk chand]. destruct (Nat.eq_dec u t) as [->|N].
+    - rewrite !upd_same, Hs. reflexivity.
+    - rewrite !upd_other by exact N. reflexivity. }
+  apply cov_cs_gen; try reflexivity; [stk_other| | | |].
+  - intros k1 Hne. rewrite Eav, (cover_frame x x' k1 eq_refl) by (intros u _; apply Hwof).
+    rewrite Hcq' in Hne. destruct (Bool.eqb k1 (ak a)) eqn:Eb.
+    + apply eqb_prop in Eb. subst k1. lia.
+    + apply (V_cov x HV k1 Hne).
+  - tf. rewrite Eav. exact Hav.
+  - intros k1 u H. rewrite Hcq' in H.
+    assert (Hc : (u = t /\ k1 = ak a) \/ In u (cq x (lcell k1))).
+    { destruct (Bool.eqb k1 (ak a)) eqn:Eb; [|auto]. apply eqb_prop in Eb. destruct H as [<-|H]; auto. }
+    destruct Hc as [[-> ->]|H0].
+    + split; [exact Ht|]. exists a. split; [|reflexivity]. unfold x'. cbn. rewrite upd_same.
+      exists p, k. right. reflexivity.
+    + destruct (V_in x HV k1 u H0) as (Hu & a1 & Hw & Ha).
+      split; [exact Hu|]. exists a1. split; [|exact Ha].
+      unfold x'. cbn. rewrite upd_other; [exact Hw|]. intros ->. apply (Hnt a1 Hw).
+  - intros u a1 Hw Hq. unfold x' in Hw, Hq. cbn [gb stk chand] in Hw, Hq.
+    destruct (Nat.eq_dec u t) as [->|N].
+    + rewrite upd_same in Hw. destruct Hw as (p1 & k1 & [E|E]); try discriminate.
+      injection E as -> _ _. rewrite Hcq', eqb_reflx. cbn. auto.
+    + rewrite upd_other in Hw by exact N. rewrite upd_other in Hq by exact N. pose proof (V_q x HV u a1 Hw Hq) as Hin.
+      rewrite Hcq'. destruct (Bool.eqb (ak a1) (ak a)); [right|]; exact Hin.
+Qed.
+
+(* internal_wait: WAITING + deferred unlock: from now on the fiber counts as blocked *)
+Lemma cov_cs_defer ff a p k :
+  S = stk_of (PCs ff (MWt4 a p k)) -> L (view_of x t) (PCs ff (MWt4 a p k)) ->
+  X x t (PCs ff (MWt4 a p k)) -> Cov (gstep x t).
+Proof.
+  intros Hs HL HX. cbn [X csx] in HX. subst ff.
+  assert (Hav : avail x (ak a) <= 0) by (apply (tfact_S (MWt4 a p k)); rewrite Hs; reflexivity).
+  assert (Hcht : chand x t = CQueued) by (destruct HL as [_ Hcs]; exact Hcs).
+  go Hs. match goal with |- Cov ?X => set (x' := X) end.
+  assert (Hwof : forall k1 u, wof x' k1 u = wof x k1 u).
+  { intros k1 u. unfold wof, x'. cbn [gb stk chand]. destruct (Nat.eq_dec u t) as [->|N].
+    - rewrite !upd_same, Hs, Hcht. reflexivity.
+    - rewrite !upd_other by exact N. reflexivity. }
+  apply cov_cs_gen; try reflexivity; [stk_other| | | |].
+  - intros k1 Hne. rewrite (avail_frame x x' k1 eq_refl eq_refl), (cover_frame x x' k1 eq_refl) by (intros u _; apply Hwof).
+    apply (V_cov x HV k1 Hne).
+  - tf. intros _. rewrite (avail_frame x x' _ eq_refl eq_refl). exact Hav.
+  - intros k1 u H. destruct (V_in x HV k1 u H) as (Hu & a1 & Hw & Ha).
+    split; [exact Hu|]. exists a1. split; [|exact Ha]. unfold x'. cbn.
+    destruct (Nat.eq_dec u t) as [->|N]; [|rewrite upd_other by exact N; exact Hw].
+    rewrite upd_same. destruct Hw as (p1 & k2 & [E|E]); rewrite Hs in E; try discriminate.
+    injection E as -> _ _. exists p, k. left. reflexivity.
+  - intros u a1 Hw Hq. unfold x' in Hw, Hq. cbn [gb stk chand cq] in *.
+    destruct (Nat.eq_dec u t) as [->|N]; [|rewrite upd_other in Hw by exact N; apply (V_q x HV u a1 Hw Hq)].
+    rewrite upd_same in Hw. destruct Hw as (p1 & k1 & [E|E]); try discriminate.
+    injection E as <- _ _. apply (V_q x HV t a); [|exact Hq]. exists p, k. right. rewrite Hs. reflexivity.
+Qed.
+
+Lemma cov_cs ff cc :
+  S = stk_of (PCs ff cc) -> L (view_of x t) (PCs ff cc) -> X x t (PCs ff cc) -> Cov (gstep x t).
+Proof.
+  intros Hs HL HX. destruct cc;
+    try (apply (cov_cs_a _ _ Hs HX I));
+    try (apply (cov_cs_b _ _ Hs HX I)).
+  - destruct HX.
+  - destruct HX.
+  - apply (cov_cs_commit _ _ _ _ _ Hs HX).
+  - apply (cov_cs_pop _ _ _ _ _ Hs HX).
+  - apply (cov_cs_wake _ _ _ _ _ Hs HL HX).
+  - destruct HX.
+  - apply (cov_cs_push _ _ _ _ Hs HL HX).
+  - apply (cov_cs_defer _ _ _ _ Hs HL HX).
+  - destruct HX.
+Qed.
+End Cs.
